@@ -284,10 +284,146 @@ def cases(tier):
             yield (o1, a, (o2, b, c)), env
 
 
+HUGE = [10 ** 400, 10 ** 399, 2 ** 1100, 3 * 2 ** 1100, math.factorial(171), math.factorial(170), 2 ** 600]
+
+
+def huge_cases():
+    """operands beyond the float range: int / int must still be the correctly rounded quotient"""
+    for a, b in itertools.product(HUGE, HUGE):
+        yield ("/", ("c", a), ("c", b)), {}
+        yield ("/", ("v", "x"), ("v", "y")), {"x": a, "y": b}
+        yield ("/", ("*", ("v", "x"), ("c", 3)), ("v", "y")), {"x": a, "y": b}
+        yield ("-", ("v", "x"), ("v", "y")), {"x": a, "y": b}
+    for n, m in ((171, 170), (200, 198), (300, 299)):
+        yield ("/", ("!", ("c", n)), ("!", ("c", m))), {}
+
+
+def twin_cases():
+    """value-equal operands of different numeric type evaluated one after the other in ONE process (float
+    first, then the integer twin, and the other way round): the integer result must stay exact whatever was
+    evaluated before"""
+    bases = [94906267, 3 ** 20, 10 ** 8 + 1, 10 ** 16, 2 ** 53 + 2, 7, 12]
+    out = []
+    for order in ("float-first", "int-first"):
+        for b in bases:
+            for k in (2, 3, 5):
+                fcase = (("^", ("v", "x"), ("c", k)), {"x": float(b)})
+                icase = (("+", ("^", ("v", "y"), ("c", k)), ("c", 1)), {"y": b})
+                fmul = (("*", ("v", "x"), ("v", "x")), {"x": float(b)})
+                imul = (("+", ("*", ("v", "y"), ("v", "y")), ("c", 1)), {"y": b})
+                fk = (("^", ("c", float(b)), ("c", float(k))), {})
+                ik = (("^", ("c", b), ("c", k)), {})
+                seq = [fcase, icase, fmul, imul, fk, ik]
+                out += seq if order == "float-first" else [icase, fcase, imul, fmul, ik, fk, icase]
+    return out
+
+
+INPLACE_TEXTS = None
+
+
+def inplace_texts():
+    from ..gen import exprs as X
+
+    out = X.same_op_groupings(3, ["2", "3", "x", "65537", "0.5"], ("+", "*"))
+    out += X.same_op_groupings(4, ["2", "3", "x"], ("+", "*"))
+    out += ["2 * (3 + x)", "(2 + 3) * x", "x / 3 + 2 / 3", "4x + 2x", "x^2 * x^3", "7 - 3 + 2", "2 + 3 - x", "(2 + 3) * (4 + x)"]
+    return out
+
+
+def check_eval_history(text):
+    """evaluation is a function of the CURRENT tree: evaluate, rewrite the live tree in place with every
+    applicable rule, evaluate again (same objects) - the second value must be the value of the new tree"""
+    from fractions import Fraction
+
+    from .. import sig as SG
+    from ..explore import rewrite as RW
+    from ..oracle import exact
+
+    out = []
+    env = {"x": 7, "y": 5}
+    try:
+        probe = RW.parse(text)
+    except Exception:  # noqa
+        return out
+    todo = []
+    for cname, rule in RW.configs():
+        for index, node in enumerate(RW.inorder(probe)):
+            try:
+                if rule.can_apply_to(node):
+                    todo.append((cname, index))
+            except Exception:  # noqa
+                pass
+    for cname, index in todo:
+        tree = RW.parse(text).clone()
+        for ctx in (None, env):
+            try:
+                tree.evaluate(ctx)
+            except Exception:  # noqa
+                pass
+        try:
+            res = RW.config(cname).apply_to(RW.inorder(tree)[index]).result
+            tree = RW.get_root(res)
+        except Exception:  # noqa
+            continue
+        s = SG.sig(tree)
+        want, st = exact.evaluate(s, {k: Fraction(v) for k, v in env.items()})
+        if want in (exact.UNDEF, exact.SKIP) or st.inexact:
+            continue
+        try:
+            got = tree.evaluate(dict(env))
+        except Exception as e:  # noqa
+            out.append(("evaluate-after-rewrite-raises:" + type(e).__name__, f"{text!r} after {cname}@{index}: {e!r}"))
+            continue
+        ok = False
+
+        def exact_class(z):
+            if z is None:
+                return True
+            if z[0] == "c":
+                return z[1][0] == "i"
+            if z[0] in ("v", "+", "-", "*", "neg"):
+                return exact_class(z[2]) and exact_class(z[3])
+            return False
+
+        try:
+            if exact_class(s) and want.denominator == 1:
+                ok = bool(got == want.numerator)
+            else:
+                ok = abs(Fraction(float(got)) - want) <= Fraction(1, 10 ** 9) * max(1, abs(want))
+        except Exception:  # noqa
+            ok = False
+        if not ok:
+            out.append(("stale-value-after-in-place-rewrite", f"{text!r}: after {cname} at in-order {index} the tree is {SG.show(s)} = {want}, evaluate() returns {got!r}"))
+    seen, res_ = set(), []
+    for k, d in out:
+        if k not in seen:
+            seen.add(k)
+            res_.append((k, d))
+    return res_
+
+
 _CASES = []
 
 
 def _work(task):
+    if task[0] == "history":
+        acc = Acc()
+        texts = inplace_texts()
+        for i in range(task[1], task[2]):
+            acc.count("evaluations")
+            acc.count("eval_history_texts")
+            for kind, detail in check_eval_history(texts[i]):
+                acc.violation(kind, {"mode": "history", "text": texts[i], "chunk": list(task)}, detail)
+        return acc
+    if task[0] == "twins":
+        acc = Acc()
+        for t, env in twin_cases():
+            acc.count("evaluations")
+            acc.count("twin_evaluations")
+            res, cls = check(t, env)
+            for kind, detail in res:
+                acc.violation(f"{kind}|{t[0]}|after-value-equal-twin", {"tree": t, "env": env, "mode": "value", "chunk": ["twins"]}, detail)
+        return acc
     lo, hi = task
     acc = Acc()
     for i in range(lo, hi):
@@ -299,7 +435,7 @@ def _work(task):
             acc.key(hash((repr(t), repr(sorted(env.items())))))
         for kind, detail in res:
             core = f"{kind}|{t[0]}"
-            acc.violation(core, {"tree": t, "env": env, "mode": "value"}, detail)
+            acc.violation(core, {"tree": t, "env": env, "mode": "value", "chunk": [lo, hi]}, detail)
         if cls == "too-big-not-run":
             continue
         if env and t[0] in ("v",) + tuple(BIN) and i % 3 == 0:
@@ -317,13 +453,21 @@ def _work(task):
     return acc
 
 
+def _load_cases(tier):
+    _CASES[:] = list(cases(tier)) + list(huge_cases())
+
+
 def run(tier, seed):
-    _CASES[:] = list(cases(tier))
+    _load_cases(tier)
     n = len(_CASES)
     parts = par.chunks(n, 160)
     k = seed % len(parts)
     parts = parts[k:] + parts[:k]
-    acc = merge_all(par.pmap(_work, parts))
+    nt = len(inplace_texts())
+    parts = list(parts) + [("history", lo, hi) for lo, hi in par.chunks(nt, 16)] + [("twins",)]
+    # every chunk runs in its own freshly forked process: module-level state of the code under test (caches)
+    # then depends only on the chunk, and a violation is replayed by re-running its chunk the same way
+    acc = merge_all(par.pmap(_work, parts, fresh=True))
     cov = {
         "evaluations": acc.n["evaluations"],
         "distinct_nontrivial": len(acc.keys),
@@ -335,6 +479,8 @@ def run(tier, seed):
         "exhaustive": True,
         "classes": {k[6:]: v for k, v in acc.n.items() if k.startswith("class:")},
         "unbound_variable_checks": acc.n["unbound_checks"], "equation_checks": acc.n["equations"],
+        "evaluate_rewrite_in_place_evaluate_texts": acc.n["eval_history_texts"],
+        "value_equal_twin_evaluations_in_one_process": acc.n["twin_evaluations"],
         "magnitudes": [repr(m) for m in MAGS], "exponents": EXPS, "factorials": FACTS,
     }
     return acc, cov, ["Python int arithmetic is the exact reference; Python float arithmetic is the IEEE reference (same operation order)"]
@@ -345,6 +491,27 @@ def _tup(x):
 
 
 def replay(case):
+    """the recorded case on its own; if that does not reproduce (module-level state of the code under test,
+    e.g. a cache filled by earlier evaluations), its whole chunk is re-run in a freshly forked process"""
+    want = case.get("_core")
+    got = _replay_direct(case)
+    if got and (want is None or any(c == want for c, _ in got)):
+        return got
+    if "chunk" in case:
+        if not _CASES:
+            _load_cases("thorough" if case.get("tier") == "thorough" else "quick")
+        chunk = case["chunk"]
+        a = par.run_fresh(_work, tuple(chunk))
+        again = [(c, e["examples"][0]["detail"]) for c, e in a.viol.items()]
+        if want is not None and any(c == want for c, _ in again):
+            return [(c, d) for c, d in again if c == want]
+        return again or got
+    return got
+
+
+def _replay_direct(case):
+    if case.get("mode") == "history":
+        return check_eval_history(case["text"])
     t, env = _tup(case["tree"]), case["env"]
     if case["mode"] == "unbound":
         return check_unbound(t)
